@@ -22,6 +22,7 @@ def _on_timer(signum, frame):
 def run(spec):
     prop = spec['prop']
     col = core.reset(prop)
+    col.python_optimize = bool(sys.flags.optimize)
     try:
         lim = int(spec.get('mem_gib', 6)) << 30
         resource.setrlimit(resource.RLIMIT_AS, (lim, lim))
